@@ -433,6 +433,128 @@ fn run_grid(gc: &GridCase, tier: Tier, t: &mut Tally, only: Option<(&str, usize)
 }
 
 // ------------------------------------------------------------------------------------
+// (a') the same oracle on one large archive: addresses and lengths beyond 255 and 65 535
+
+fn run_large(e: End, t: &mut Tally) -> Vec<(String, String, Value)> {
+    const SIZE: usize = 70_000;
+    let mut out: Vec<(String, String, Value)> = Vec::new();
+    let mut base = Content::new(e);
+    base.data = (0..SIZE).map(|i| (i as u8).wrapping_mul(31).wrapping_add(7) ^ (i >> 8) as u8).collect();
+    base.strings.insert(65_536, "far".into());
+    base.pointers.insert(65_540, 65_536);
+    base.labels.insert(65_544, vec!["FarLabel".into()]);
+    let cj = |op: &str, addr: usize, extra: Value| json!({"part": "large", "endian": format!("{:?}", e), "op": op, "addr": addr.to_string(), "extra": extra});
+    let mut a = match util::catch(|| arch::build(&base, None)) {
+        Ok(Ok(a)) => a,
+        other => {
+            out.push(("in-range-write-rejected:large-archive".into(), format!("building a {}-byte archive failed: {:?}", SIZE, other.map(|r| r.map(|_| ()))), cj("build", 0, json!(null))));
+            return out;
+        }
+    };
+    let d = arch::diff_obs(&arch::observe(&a), &base);
+    if !d.is_empty() {
+        out.push(("large-archive:observation".into(), format!("a {}-byte archive does not read back what was written: {}", SIZE, d[0].chars().take(300).collect::<String>()), cj("observe", 0, json!(null))));
+        return out;
+    }
+    let mut addrs: Vec<usize> = vec![0, 1];
+    addrs.extend(252..=258);
+    addrs.extend(65_532..=65_538);
+    addrs.extend(SIZE - 5..=SIZE + 1);
+    for &addr in &addrs {
+        for w in WIDTHS {
+            t.cases += 1;
+            t.calls += 3;
+            let ok = in_range(addr, w.width(), SIZE);
+            let bits = 0xA1B2_C3D4u32 ^ addr as u32;
+            let r = util::catch(|| {
+                let rd = typed_read(&a, w, addr);
+                let wr = typed_write(&mut a, w, addr, bits);
+                let back = typed_read(&a, w, addr);
+                (rd, wr, back)
+            });
+            match r {
+                Err(p) => out.push((format!("panic@{}:large", p.location), format!("{:?} access at {} of a {}-byte archive panicked: {}", w, addr, SIZE, p.message), cj(&format!("{:?}", w), addr, json!(null)))),
+                Ok((rd, wr, back)) => {
+                    if ok {
+                        let want = dec(e, &base.data[addr..addr + w.width()]);
+                        let mask = u32::MAX >> (32 - 8 * w.width());
+                        if rd != Ok(want) || wr.is_err() || back != Ok(bits & mask) {
+                            out.push((format!("large-archive:{:?}", w), format!("{:?} at {} of a {}-byte archive: read {:?} (expected {:#x}), write {:?}, read-back {:?} (expected {:#x})", w, addr, SIZE, rd, want, wr, back, bits & mask), cj(&format!("{:?}", w), addr, json!(null))));
+                        }
+                        // locality: everything else untouched
+                        let now = a.read_bytes(0, SIZE).map(|b| b.to_vec()).unwrap_or_default();
+                        let mut exp = base.data.clone();
+                        exp[addr..addr + w.width()].copy_from_slice(&enc(e, bits, w.width()));
+                        if now != exp {
+                            let first = now.iter().zip(exp.iter()).position(|(x, y)| x != y);
+                            out.push((format!("large-archive:locality:{:?}", w), format!("write_{:?} at {} changed other bytes (first difference at {:?})", w, addr, first), cj(&format!("{:?}", w), addr, json!(null))));
+                        }
+                        let _ = a.write_bytes(0, &base.data);
+                        t.nontrivial += 1;
+                    } else if rd.is_ok() || wr.is_ok() {
+                        out.push((format!("large-archive:accepted-oob:{:?}", w), format!("{:?} at {} of a {}-byte archive was accepted", w, addr, SIZE), cj(&format!("{:?}", w), addr, json!(null))));
+                        let _ = a.write_bytes(0, &base.data);
+                    }
+                }
+            }
+        }
+        for len in [1usize, 255, 256, 257, 65_535, 65_536, 65_537, SIZE.saturating_sub(addr), SIZE.saturating_sub(addr) + 1] {
+            t.cases += 1;
+            t.calls += 2;
+            let ok = in_range(addr, len, SIZE);
+            let payload: Vec<u8> = (0..len).map(|i| 0x5A ^ i as u8).collect();
+            let r = util::catch(|| {
+                let rd = a.read_bytes(addr, len).map(|b| b.to_vec()).map_err(|e| e.to_string());
+                let wr = a.write_bytes(addr, &payload).map_err(|e| e.to_string());
+                (rd, wr)
+            });
+            match r {
+                Err(p) => out.push((format!("panic@{}:large", p.location), format!("byte-range access ({}, {}) on a {}-byte archive panicked: {}", addr, len, SIZE, p.message), cj("bytes", addr, json!(len)))),
+                Ok((rd, wr)) => {
+                    if ok {
+                        let now = a.read_bytes(0, SIZE).map(|b| b.to_vec()).unwrap_or_default();
+                        let mut exp = base.data.clone();
+                        exp[addr..addr + len].copy_from_slice(&payload);
+                        if rd.as_deref() != Ok(&base.data[addr..addr + len]) || wr.is_err() || now != exp {
+                            out.push(("large-archive:bytes".into(), format!("read_bytes/write_bytes({}, {}) on a {}-byte archive: read ok={} write={:?} locality={}", addr, len, SIZE, rd.as_deref() == Ok(&base.data[addr..addr + len]), wr, now == exp), cj("bytes", addr, json!(len))));
+                        }
+                        let _ = a.write_bytes(0, &base.data);
+                        t.nontrivial += 1;
+                    } else if rd.is_ok() || wr.is_ok() {
+                        out.push(("large-archive:bytes-accepted-oob".into(), format!("byte-range access ({}, {}) on a {}-byte archive was accepted", addr, len, SIZE), cj("bytes", addr, json!(len))));
+                        let _ = a.write_bytes(0, &base.data);
+                    }
+                }
+            }
+        }
+        // streams at a far cursor
+        t.cases += 1;
+        t.calls += 2;
+        let r = util::catch(|| {
+            let mut rdr = BinArchiveReader::new(&a, addr);
+            let v = rdr.read_u32().map_err(|e| e.to_string());
+            (v, rdr.tell())
+        });
+        match r {
+            Err(p) => out.push((format!("panic@{}:large", p.location), format!("stream read_u32 at {} panicked: {}", addr, p.message), cj("stream", addr, json!(null)))),
+            Ok((v, tell)) => {
+                let ok = in_range(addr, 4, SIZE);
+                let want_tell = if ok { addr + 4 } else { addr };
+                if v.is_ok() != ok || tell != want_tell || (ok && v != Ok(dec(e, &base.data[addr..addr + 4]))) {
+                    out.push(("large-archive:stream".into(), format!("reader at {}: read_u32 = {:?}, cursor afterwards {} (expected {})", addr, v, tell, want_tell), cj("stream", addr, json!(null))));
+                }
+            }
+        }
+    }
+    // annotations beyond 65 535 survived all of the above
+    let d = arch::diff_obs(&arch::observe(&a), &base);
+    if !d.is_empty() {
+        out.push(("large-archive:annotations".into(), format!("annotations at 65 536.. were disturbed: {}", d[0].chars().take(300).collect::<String>()), cj("observe", 0, json!("after"))));
+    }
+    out
+}
+
+// ------------------------------------------------------------------------------------
 // (b) cursor interleavings
 
 #[derive(Clone, Debug, PartialEq, Eq, Hash, serde::Serialize, serde::Deserialize)]
@@ -949,6 +1071,13 @@ fn explore(ctx: &Ctx) -> Outcome {
         })
         .reduce(Tally::new, Tally::merge);
     total.absorb(t);
+    for e in [End::Little, End::Big] {
+        let mut t = Tally::new();
+        for (sig, summary, case) in run_large(e, &mut t) {
+            t.violate(sig, summary, case);
+        }
+        total.absorb(t);
+    }
     total.sample(case_json(4, End::Big, "U16", 3, json!({"write": 4660})));
     total.sample(case_json(9, End::Little, "bytes", 1, json!({"read_len": usize::MAX.to_string()})));
     let grid_cases = total.cases;
@@ -978,7 +1107,7 @@ fn explore(ctx: &Ctx) -> Outcome {
         total.samples.push(s);
     }
     let mut o = total.into_outcome(
-        "(a) grid: archive sizes 0..=9 × both endiannesses × every typed/bytes/annotation accessor × addresses {0..=size+2, 2^31±1, 2^32±1, isize::MAX±1, usize::MAX-8..=usize::MAX} × read_bytes lengths {0..=size+1, isize::MAX, usize::MAX, usize::MAX-address+{0,1,2}} × values (all 256 / all 65 536 in range / walking-one-zero patterns / f32 incl. NaN payloads); oracle: Ok iff non-empty range inside the data (u128 arithmetic), Err ⇒ nothing observable changed, Ok write ⇒ exactly the addressed bytes in the archive's endianness and identical bits on read-back, annotation accessors never change raw bytes. (b) BFS over (archive content, reader cursor, writer cursor) of a 9-byte archive, every stream read/write/seek/skip interleaved with positional calls; oracle: stream op ≡ positional op at the cursor, cursor advances by the width iff Ok, label accesses never move it. non-trivial = successful in-range accesses",
+        "(a) grid: archive sizes 0..=9 (plus one 70 000-byte archive probed around addresses/lengths 255, 65 535 and its end) × both endiannesses × every typed/bytes/annotation accessor × addresses {0..=size+2, 2^31±1, 2^32±1, isize::MAX±1, usize::MAX-8..=usize::MAX} × read_bytes lengths {0..=size+1, isize::MAX, usize::MAX, usize::MAX-address+{0,1,2}} × values (all 256 / all 65 536 in range / walking-one-zero patterns / f32 incl. NaN payloads); oracle: Ok iff non-empty range inside the data (u128 arithmetic), Err ⇒ nothing observable changed, Ok write ⇒ exactly the addressed bytes in the archive's endianness and identical bits on read-back, annotation accessors never change raw bytes. (b) BFS over (archive content, reader cursor, writer cursor) of a 9-byte archive, every stream read/write/seek/skip interleaved with positional calls; oracle: stream op ≡ positional op at the cursor, cursor advances by the width iff Ok, label accesses never move it. non-trivial = successful in-range accesses",
         true,
         vec![("grid_cases", json!(grid_cases)), ("cursor_bfs_states", json!(bfs_states)), ("cursor_bfs_transitions", json!(bfs_trans)), ("cursor_bfs_depth", json!(depth)), ("cursor_states_per_depth", json!(per_depth)), ("cursor_witnesses", json!(wit))],
     );
@@ -1010,6 +1139,10 @@ fn replay(_ctx: &Ctx, case: &Value) -> Vec<Violation> {
             }
         }
         return vec![];
+    }
+    if case["part"] == "large" {
+        let mut t = Tally::new();
+        return run_large(e, &mut t).into_iter().map(|(sig, summary, c)| Violation { sig, summary, case: c }).collect();
     }
     let size = case["size"].as_u64().unwrap_or(0) as usize;
     let addr: usize = case["addr"].as_str().and_then(|s| s.parse().ok()).unwrap_or(0);
